@@ -171,6 +171,7 @@ class MinimizerIMinuit(MinimizerBase):
             return None
         if self._par_cov_mat is None:
             self._save_state()
+            _values_before_hesse = None if _IMINUIT_1 else np.array(self._get_iminuit().values)
             try:
                 self._get_iminuit().hesse()
                 if _IMINUIT_1:
@@ -186,6 +187,10 @@ class MinimizerIMinuit(MinimizerBase):
                     _mat = self._get_iminuit().covariance
                     if _mat is not None:
                         _mat = np.asarray(_mat)
+                    if np.any(np.array(self._get_iminuit().values) != _values_before_hesse):
+                        # HESSE starts a new minimization when it finds no valid minimum (e.g. after a parameter was
+                        # released): the MINUIT object must not keep values the fit does not report
+                        self._get_iminuit().values = _values_before_hesse
                 self._func_wrapper_unpack_args(self.parameter_values)
             except RuntimeError:
                 _mat = None
